@@ -18,4 +18,7 @@ for f in $(grep -E "^\+\+\+ b/" "$P" | sed 's|^+++ b/||'); do
     *) add C01 C02 C03 C04 C05 C06 C08 C09 C10 C13 C14 C15 C16 C17 C18 C19 C20 ;;
   esac
 done
+# SKIP="C15 ..." drops checks from the selection (e.g. the slow C15 when only other rules changed)
+for x in $SKIP; do sel=$(echo " $sel " | sed "s/ $x / /g"); done
+[ -z "$(echo $sel)" ] && { echo "$P done"; exit 0; }
 exec "$(dirname "$0")/benign_probe.sh" "$P" $sel
